@@ -5,8 +5,8 @@ import os
 from harness import common, gen_tree, trees, treeimpl
 from harness.common import cps, uncps
 
-BRIDGE = ('Gemato.Bridge.Tree',)
-PROPS = ['Gemato.Props.C01']
+BRIDGE = ('Gemato.Bridge.Tree', 'Gemato.Bridge.SrcVerify', 'Gemato.Bridge.SrcLoader', 'Gemato.Bridge.SrcWalk')
+PROPS = ['Gemato.Props.C01', 'Gemato.Props.C01b']
 
 
 def model_verify(drv, root, top, path, texts, handler=None, last_mtime=None, xdev=True, extra_hashes=()):
